@@ -443,6 +443,9 @@ def r3(ctx):
                 continue
             if chained and isinstance(e, ast.Name) and e.id == param:
                 continue
+            # the last link of the chain returned without a name: <smoother>.smooth_plates(<the screen so far>, rng)
+            if chained and isinstance(e, ast.Call) and attr_tail(e) == "smooth_plates" and e.args and isinstance(e.args[0], ast.Name) and e.args[0].id == param:
+                continue
             # S.subset(mask).to_screen()
             if (isinstance(e, ast.Call) and attr_tail(e) == "to_screen" and isinstance(e.func.value, ast.Call)
                     and attr_tail(e.func.value) == "subset" and isinstance(e.func.value.func.value, ast.Name)
